@@ -31,19 +31,16 @@ def own_obligations(tier):
     C2 = [("pool_create_basic_%s_%s" % (k.lower(), a.lower()), ["WHICH=0", "KIND=ABT_POOL_" + k, "ACC=ABT_POOL_ACCESS_" + a], "ABT_pool_create_basic(%s, %s, automatic flag symbolic)" % (k, a))
           for k, a in (("FIFO", "PRIV"), ("FIFO", "MPMC"), ("FIFO_WAIT", "MPMC"), ("RANDWS", "PRIV"), ("RANDWS", "MPSC"))]
     C2 += [
-          ("pool_create_user", ["WHICH=4"], "ABT_pool_create with a user definition whose p_init allocates"),
           ("pool_user_def_create", ["WHICH=5"], "ABT_pool_user_def_create"),
-          ("pool_config_create", ["WHICH=6"], "ABT_pool_config_create"),
-          ("sched_config_create", ["WHICH=7"], "ABT_sched_config_create with two variables"),
-          ("sched_create_user", ["WHICH=3"], "ABT_sched_create with a user definition whose init allocates, pool array { a pool of the caller, ABT_POOL_NULL } in either order")]
-    for pd in ("BASIC", "BASIC_WAIT", "PRIO", "RANDWS"):
-        C2.append(("sched_create_basic_%s_nopools" % pd.lower(), ["WHICH=1", "PREDEF=ABT_SCHED_" + pd], "ABT_sched_create_basic(%s) creating its own pools" % pd))
-        C2.append(("sched_create_basic_%s_given" % pd.lower(), ["WHICH=2", "PREDEF=ABT_SCHED_" + pd], "ABT_sched_create_basic(%s) with the pool array { a pool of the caller, ABT_POOL_NULL } in either order" % pd))
+          ("pool_config_create", ["WHICH=6"], "ABT_pool_config_create")]
+    # (the harness also has the scheduler constructors -- ABT_sched_create[_basic] for every predefined scheduler with and without
+    #  caller-given pools, ABT_sched_config_create -- and ABT_pool_create with a user definition, WHICH=1,2,3,4,7: no verdict in
+    #  1200 s each: pool handles travel through untyped heap arrays and the indirect calls fan out; not claimed, see DESIGN 10)
     for nm, defs, d in C2:
-        o.append(Obl("ctor_" + nm, "C18/create2.c", d + ": the k-th allocation request fails (k symbolic over every request of the call): error code, nothing left allocated, handle NULL or untouched, the caller's pool keeps its reference count and stays usable, retry succeeds, everything freeable",
-                     real=REAL2, defs=defs + ["free=vr_free", "memcpy=vr_memcpy", "memset=vr_memset"], unwind=10,
+        o.append(Obl("ctor_" + nm, "C18/create2.c", d + ": the k-th allocation request fails, for every k (enumerated by unrolling): error code, nothing left allocated, handle NULL or untouched, the caller's pool keeps its reference count and stays usable, retry succeeds, everything freeable",
+                     real=REAL2, defs=defs + ["free=vr_free", "memcpy=vr_memcpy", "memset=vr_memset"], unwind=10, unwindset=["main.0:14"],
                      encodes=["ABT_sched_create", "ABT_sched_create_basic", "ABTI_sched_create_basic", "sched_create", "ABT_sched_free", "ABT_pool_create", "ABT_pool_create_basic", "pool_create", "ABT_pool_free", "ABT_pool_user_def_create", "ABT_pool_config_create", "ABT_sched_config_create", "ABTU_hashtable_create", "sched_init (basic, basic_wait, prio, randws)", "pool_init (fifo, fifo_wait, randws)"],
-                     bounds="every allocation request of one call (1..12); <=3 pools per scheduler", symbolic="failing request index, pool kind/access/automatic, position of the caller's pool"))
+                     bounds="every allocation request of one call (1..12); <=3 pools per scheduler", symbolic="automatic flag, position of the caller's pool in the array (the failing request index is enumerated)"))
     KD = [("ABTI_ktable_free.function_pointer_call.1", ["thread_key_destructor_stackable_sched", "thread_key_destructor_migration"])]
     for nm, defs, d, to in [("thread_create_noattr", ["WHICH=0", "WITH_ATTR=0"], "ABT_thread_create (default attributes) into a built-in or user-defined pool", 200),
                             ("thread_create_migcb", ["WHICH=0", "WITH_ATTR=1"], "ABT_thread_create with an attribute carrying a migration callback (migration record + key table)", 300),
